@@ -3,7 +3,8 @@
 From Coq Require Import String List NArith ZArith Bool.
 From J5V.lib Require Import Outcome Json.
 From J5V.model Require Import CodecTypes CodecDecScalar CodecDec CodecDecQuery CodecDecTree.
-From J5V.proofs Require Import CodecDecProofs CodecDecExact CodecDecTreeProofs CodecDecFaults CodecDecStored.
+From J5V.lib Require Base64.
+From J5V.proofs Require Import CodecDecProofs CodecDecExact CodecDecTreeProofs CodecDecFaults CodecDecStored CodecDecBase64.
 Import ListNotations.
 Local Open Scope N_scope.
 
@@ -87,6 +88,26 @@ Theorem C03_wrong_type_rejected : forall orc,
   (forall v, (forall s, v <> GStr s) -> (forall s, v <> GNum s) -> is_err (scalar_from_go orc KDecimal v) = true).
 Proof. exact wrong_type_rejected. Qed.
 Print Assumptions C03_wrong_type_rejected.
+
+(* ------------------------------------------------------------------ bytes *)
+(* standard or URL-safe base64, with or without padding: for every byte string bs the four spellings
+   of base64(bs) — Base64.b64_encode is the encoder side's model of StdEncoding.EncodeToString — are
+   stored as bs *)
+Theorem C03_base64_four_spellings : forall orc bs, Forall is_byte bs ->
+  let e := Base64.b64_encode bs in
+  Forall (fun s => scalar_from_go orc KBytes (GStr s) = Ok (Some (VBytes bs)))
+         [e; strip_pad e; map std_to_url e; map std_to_url (strip_pad e)].
+Proof. exact bytes_field_four_spellings. Qed.
+Print Assumptions C03_base64_four_spellings.
+
+(* invalid base64: a character that is in neither alphabet (nor '=', CR, LF) is rejected wherever it stands *)
+Theorem C03_base64_foreign_char_rejected : forall s1 c s2,
+  CodecDecScalar.b64_val (CodecDecScalar.url_to_std c) = None -> is_crlf (CodecDecScalar.url_to_std c) = false ->
+  (CodecDecScalar.url_to_std c =? 61) = false ->
+  Forall (fun x => CodecDecScalar.b64_val (CodecDecScalar.url_to_std x) <> None) s1 ->
+  bytes_from_string (s1 ++ c :: s2) = None.
+Proof. exact base64_foreign_char_rejected. Qed.
+Print Assumptions C03_base64_foreign_char_rejected.
 
 (* ------------------------------------------------------------------ enums *)
 Theorem C03_enum_with_or_without_prefix : forall prefix opts name z,
